@@ -96,12 +96,24 @@ class DependencyBuilder:
     ) -> Dependencies:
         results = Dependencies()
         for dependant in dependant_types:
-            if isinstance(dependant, pydsdl.UnionType):
+            if any(isinstance(t, pydsdl.UnionType) for t in cls._unwrap_composite(dependant)):
                 # Unions always require integer for the tag field.
                 results.uses_integer = True
                 results.uses_union = True
             cls._extract_dependent_types(cls._extract_data_types(dependant), transitive, results)
         return results
+
+    @classmethod
+    def _unwrap_composite(cls, t: pydsdl.CompositeType) -> typing.List[pydsdl.CompositeType]:
+        """
+        The structure/union types a composite is made of: the inner type of a delimited (``@extent``) type and
+        the request and response types of a service.
+        """
+        if isinstance(t, pydsdl.ServiceType):
+            return cls._unwrap_composite(t.request_type) + cls._unwrap_composite(t.response_type)
+        if isinstance(t, pydsdl.DelimitedType):
+            return cls._unwrap_composite(t.inner_type)
+        return [t]
 
     @classmethod
     def _extract_data_types(cls, t: pydsdl.CompositeType) -> typing.List[pydsdl.SerializableType]:
